@@ -1,7 +1,18 @@
 import Oracle.Proto
-/-! Oracle suites of property C19 (registered in Oracle/Main.lean through `suites`). -/
+import Oracle.Chrono
+import Oracle.Period
+import Oracle.ChronoJudge
+/-! Oracle suites of property C19. -/
 namespace Oracle.C19
 
-def suites : List (String × Suite) := []
+def suites : List (String × Suite) := [
+  ("chrono", Oracle.Chrono.model),
+  ("chrono-spec", Oracle.Chrono.spec),
+  ("chrono-judge", Oracle.ChronoJudge.chronoJudge),
+  ("period", Oracle.Period.model),
+  ("period-spec", Oracle.Period.spec),
+  ("period-judge", Oracle.ChronoJudge.periodJudge),
+  ("dst-judge", Oracle.ChronoJudge.dstJudge)
+]
 
 end Oracle.C19
